@@ -272,8 +272,10 @@ func GetInMemorySize() uint64 {
 }
 
 func InitWriterNode() {
-	// one time initialization
+	// one time initialization; the memory limiter loop may already be reading the unrotated info
+	UnrotatedInfoLock.Lock()
 	AllUnrotatedSegmentInfo = make(map[string]*UnrotatedSegmentInfo)
+	UnrotatedInfoLock.Unlock()
 	RecentlyRotatedSegmentFiles = make(map[string]*SegfileRotateInfo)
 	metrics.InitMetricsSegStore()
 
